@@ -70,6 +70,28 @@ fn run(c: &Case) -> Verdict {
         }
     }
 
+    // fixed-size types keep their words inline: the operands are also placed at different offsets
+    // modulo 16 bytes (a kernel working on wider words must not assume a common alignment)
+    if c.fam == Fam::Static {
+        for (op, opname, want) in [
+            (BinOp::And, "AND", c.a.and(&c.b)),
+            (BinOp::Or, "OR", c.a.or(&c.b)),
+            (BinOp::Xor, "XOR", c.a.xor(&c.b)),
+        ] {
+            for place in 0..3u8 {
+                for (f, name) in BIN_FORMS.iter().enumerate() {
+                    let r = lib!(format!("{} form `{}`", opname, name), a.bin_form_placed(op, f, b.as_ref(), place));
+                    if let Err(e) = same_fn(r.as_ref(), &want) {
+                        return fail(
+                            format!("bin:placement:{}", opname),
+                            format!("{} form `{}` on LutN a={} b={} with the operands at offsets {} modulo 16 bytes: {}", opname, name, c.a.short(), c.b.short(), ["(0, 8)", "(8, 0)", "(8, 8)"][place as usize], e),
+                        );
+                    }
+                }
+            }
+        }
+    }
+
     // the same object as both operands (aliasing): x op x through every form
     for (op, opname, want) in [
         (BinOp::And, "AND", c.a.clone()),
@@ -124,7 +146,7 @@ fn enumerate(t: Tier, shard: usize, nshards: usize, f: &mut dyn FnMut(Case) -> b
 pub fn def() -> PropDef {
     PropDef {
         id: "C01",
-        rule: "cases = (family, a, b) with a from the table generator (uniform/wordwise/shared-word/sparse/symmetric/expression/constant classes, n in 0..=12 for LutN and 0..=14 for Lut, about one case in 4000 with 15..=18) and b fresh or related to a (equal, complement, 1-2 bits or one word changed); every case runs all 4 NOT forms and all 8 forms of AND, OR, XOR — on (a, b) and on (a, a) with the same object passed as both operands — and compares value(m) for every m with the definition. Non-trivial = a and b non-constant and b not in {a, !a}; distinct by (family, a, b). Exhaustive part: every ordered pair of functions of n <= 3, both families (both tiers).",
+        rule: "cases = (family, a, b) with a from the table generator (uniform/wordwise/shared-word/sparse/symmetric/expression/constant classes, n in 0..=12 for LutN and 0..=14 for Lut, about one case in 4000 with 15..=18) and b fresh or related to a (equal, complement, 1-2 bits or one word changed); every case runs all 4 NOT forms and all 8 forms of AND, OR, XOR — on (a, b), on (a, a) with the same object passed as both operands, and for LutN with the operands placed at offsets (0,8), (8,0), (8,8) modulo 16 bytes — and compares value(m) for every m with the definition. Non-trivial = a and b non-constant and b not in {a, !a}; distinct by (family, a, b). Exhaustive part: every ordered pair of functions of n <= 3, both families (both tiers).",
         assumptions: vec![
             "value() and from_blocks()/set_bit() are used to load and observe tables; a table that cannot be loaded and read back is skipped (label skipped:unloadable), not reported here",
             "bits above 2^n in blocks() are deliberately not inspected (that is C02)",
